@@ -216,6 +216,72 @@ def r17_3(ctx, rep):
            "__iter__ removes the canonical name from the set it yields; it must do so on a copy of the class")
 
 
+def _resolve_local(cfg, node_id, expr, depth=3):
+    """expression with local names replaced by their unique reaching definition's value (when there is exactly one)"""
+    from ..cfg import reaching_defs, def_value
+    if depth == 0 or not isinstance(expr, ast.Name):
+        return expr
+    rd = reaching_defs(cfg, expr.id).get(node_id, frozenset())
+    vals = [def_value(cfg.nodes[d], expr.id) for d in rd if d != cfg.entry]
+    if len(rd) == 1 and len(vals) == 1 and vals[0] is not None:
+        return _resolve_local(cfg, list(rd)[0], vals[0], depth - 1)
+    return expr
+
+
+@SPEC.rule(
+    "R17.4",
+    "membership is decided on values, never on object identity: copy() gives every key its own set object (R17.3), so "
+    "no `is` / `is not` comparison between alias sets may exist, and the only exit of add() that skips the update of the "
+    "maps is guarded by the membership test `b in aliases(a)` (or its symmetric form)",
+)
+def r17_4(ctx, rep):
+    from ..cfg import CFG
+    R = "R17.4"
+    cls = ctx.cls(AR, CLS, R)
+    n_cmp = 0
+    for m in cls.body:
+        if not isinstance(m, ast.FunctionDef):
+            continue
+        for c in walk_local(m):
+            if isinstance(c, ast.Compare):
+                n_cmp += 1
+                for op, rhs, lhs in zip(c.ops, c.comparators, [c.left] + c.comparators[:-1]):
+                    if isinstance(op, (ast.Is, ast.IsNot)) and not any(isinstance(x, ast.Constant) and x.value is None for x in (lhs, rhs)):
+                        rep.ob(R, AR + ":%s.%s" % (CLS, m.name), "identity comparison `%s`" % norm(c), False,
+                               "alias classes are compared by object identity; after copy() every member owns a separate (equal) set "
+                               "object, so identity no longer means 'same class' and related variables are treated as unrelated")
+    rep.ob(R, AR + ":" + CLS, "comparisons inspected", n_cmp >= 4, "expected the membership tests of add/aliases/canonical_signed/remove (found %d comparisons)" % n_cmp)
+    fn = ctx.func(AR, CLS + ".add", R)
+    params = [a.arg for a in fn.args.args[1:3]]
+    cfg = CFG(fn, R)
+    stores = {x.id for x in cfg.stmts() if isinstance(x.ast, ast.Assign) and any(
+        isinstance(t, ast.Subscript) and norm(t.value) in ("self._aliases", "self._canonical_variables_map") for t in x.ast.targets)}
+    if not stores:
+        raise MechanismMissing(R, "add() no longer stores into _aliases / _canonical_variables_map")
+    k = 0
+    for r in [x for x in cfg.stmts() if isinstance(x.ast, ast.Return)] + [cfg.nodes[cfg.exit]]:
+        w = cfg.path(cfg.entry, r.id, avoid=stores)
+        if w is None or (r.id == cfg.exit and any(isinstance(x.ast, ast.Return) for x in w if x.kind == "stmt")):
+            continue
+        k += 1
+        guards = cfg.dominated_by(r.id, lambda x: x.kind == "assume" and x.taken)
+        ok = False
+        seen = []
+        for g in guards:
+            t = g.ast
+            seen.append(norm(t))
+            if isinstance(t, ast.Compare) and len(t.ops) == 1 and isinstance(t.ops[0], ast.In) and isinstance(t.left, ast.Name) and t.left.id in params:
+                other = [p_ for p_ in params if p_ != t.left.id]
+                v = _resolve_local(cfg, g.id, t.comparators[0])
+                if isinstance(v, ast.Call) and norm(v.func) == "self.aliases" and len(v.args) == 1 and other and is_name(v.args[0], other[0]):
+                    ok = True
+        rep.ob(R, AR + ":%s.add" % CLS, "early exit #%d guarded by membership" % k, ok,
+               "add() can leave without updating the maps on a path that is not guarded by `b in aliases(a)`: guards seen %s" % (seen or "none"),
+               path=cfg.describe(w))
+    if k == 0:
+        rep.note("R17.4: add() has no early exit")
+
+
 # -- seeded variants ---------------------------------------------------------
 from ._mut import delete_stmt_where, replace_in_func  # noqa: E402
 
@@ -284,6 +350,18 @@ def _m7(mod):
         for n in ast.walk(fn):
             if isinstance(n, ast.For) and is_name(n.iter, "aliases") and any("self._aliases[" in norm(st) for st in n.body):
                 n.iter = ast.parse("self.aliases(b) | {a}", mode="eval").body
+                return True
+        return False
+
+    return mod if replace_in_func(mod, "AliasRelation.add", edit) else None
+
+
+@SPEC.mutant("already-related test by set identity", AR, "R17.4", "identity comparison")
+def _m_ident(mod):
+    def edit(fn):
+        for n in ast.walk(fn):
+            if isinstance(n, ast.If) and isinstance(n.test, ast.Compare) and isinstance(n.test.ops[0], ast.In) and is_name(n.test.left, "b"):
+                n.test = ast.parse("self.aliases(b) is aliases", mode="eval").body
                 return True
         return False
 
